@@ -26,6 +26,7 @@ MCNext ==
   \/ \E t \in Threads : SyncStart(t) /\ Count(FALSE)
   \/ \E t \in Threads : GCStart(t) /\ Count(FALSE)
   \/ \E t \in Threads, g \in Groups : CreateGroupStart(t, g) /\ Count(FALSE)
+  \/ \E t \in Threads, g \in Groups : CreateGroupFailStart(t, g) /\ Count(FALSE)
   \/ \E t \in Threads, g \in Groups : StopGroup(t, g) /\ Count(FALSE)
   \/ \E t \in Threads, s \in Seqs : SetAppendedStart(t, s) /\ Count(FALSE)
   \/ \E t \in Threads : DoStore(t) /\ Same
@@ -33,5 +34,5 @@ MCNext ==
   \/ Reopen /\ Same
 
 MCSpec == MCInit /\ [][MCNext]_mcvars
-MCView == <<idx, data, dpages, meta, gd, open, mApp, mAck, curPage, curOff, gm, ops, truth, nput, nops, ndown>>
+MCView == <<idx, data, dpages, meta, gd, gdir, open, mApp, mAck, curPage, curOff, gm, ops, truth, nput, nops, ndown>>
 =============================================================================
